@@ -29,4 +29,113 @@ theorem image_crit_eq_model {V : Type} [Nd V] (sTrue eSpat eInterf eArtif : V) :
       = .ok (imageCrit Nd.sumsq ⟨sTrue, eSpat, eInterf, eArtif⟩) := by
   simp only [Gen.separation._bss_image_crit, safe_db_eq_model]; rfl
 
+/-! ## 2. the decomposition arithmetic of `_bss_decomp_mtifilt` (`_project` is an extern parameter) -/
+
+theorem ok_bind {α β : Type} (a : α) (f : α → Py β) : (Except.ok a >>= f) = f a := rfl
+theorem error_bind {α β : Type} (e : PyErr) (f : α → Py β) : ((Except.error e : Py α) >>= f) = Except.error e := rfl
+
+theorem vsub_ok {a b : List Rat} (h : a.length = b.length) :
+    PyMel.vsub a b = .ok (List.zipWith (· - ·) a b) := by
+  simp [PyMel.vsub, PyMel.bcast, h]
+
+theorem vadd_ok {a b : List Rat} (h : a.length = b.length) :
+    PyMel.vadd a b = .ok (List.zipWith (· + ·) a b) := by
+  simp [PyMel.vadd, PyMel.bcast, h]
+
+theorem zeros_ok {flen : Nat} (hf : 1 ≤ flen) : PySep.zeros ((flen : Int) - 1) = .ok (List.replicate (flen - 1) 0) := by
+  have h1 : ¬ ((flen : Int) - 1 < 0) := by omega
+  have h2 : ((flen : Int) - 1).toNat = flen - 1 := by omega
+  simp [PySep.zeros, h1, h2]
+
+theorem zipWith_add_zeros (x : List Rat) : List.zipWith (· + ·) x (List.replicate x.length (0 : Rat)) = x := by
+  induction x with
+  | nil => rfl
+  | cons a t ih => simp [List.replicate_succ, ih]
+
+theorem zipWith_add_pad (a d est : List Rat) (h : a.length = est.length) :
+    List.zipWith (· + ·) (a ++ d) (est ++ List.replicate d.length 0) = List.zipWith (· + ·) a est ++ d := by
+  rw [List.zipWith_append h, zipWith_add_zeros]
+
+/-- `x[:n] += est` for `n = len(est) <= len(x)` adds the zero-padded estimate. -/
+theorem addPrefix_ok (x est : List Rat) (h : est.length ≤ x.length) :
+    PySep.addPrefix x est.length est = .ok (List.zipWith (· + ·) x (padTo x.length est)) := by
+  have hl : (x.take est.length).length = est.length := by simp [h]
+  have hd : (x.drop est.length).length = x.length - est.length := by simp
+  have key := zipWith_add_pad (x.take est.length) (x.drop est.length) est hl
+  rw [List.take_append_drop, hd] at key
+  unfold PySep.addPrefix
+  rw [vadd_ok hl]
+  have hz : (List.zipWith (· + ·) (x.take est.length) est).length = (x.take est.length).length := by simp [hl]
+  simp only [ok_bind, padTo, hz, ne_eq, not_true_eq_false, if_false, key]
+  rfl
+
+/-- `_bss_decomp_mtifilt` as translated = the model's `decompRow` on the two results of `_project`, whatever `_project`
+    is, whenever those results have the length `nsampl + flen - 1` of the padded target (what `_project` returns). -/
+theorem decomp_mtifilt_eq_model (refs : List (List Rat)) (est r pT pA : List Rat) (j flen : Nat)
+    (proj : List (List Rat) → List Rat → Nat → Py (List Rat))
+    (hj : refs[j]? = some r) (hf : 1 ≤ flen)
+    (hT : proj [r] est flen = .ok pT) (hA : proj refs est flen = .ok pA)
+    (hlT : pT.length = r.length + (flen - 1)) (hlA : pA.length = r.length + (flen - 1))
+    (hle : est.length ≤ r.length + (flen - 1)) :
+    Gen.separation._bss_decomp_mtifilt refs est j flen proj =
+      .ok ((decompRow (r ++ List.replicate (flen - 1) 0) pT pA est).sTrue.xs,
+           (decompRow (r ++ List.replicate (flen - 1) 0) pT pA est).eSpat.xs,
+           (decompRow (r ++ List.replicate (flen - 1) 0) pT pA est).eInterf.xs,
+           (decompRow (r ++ List.replicate (flen - 1) 0) pT pA est).eArtif.xs) := by
+  have hs : (r ++ List.replicate (flen - 1) (0 : Rat)).length = r.length + (flen - 1) := by simp
+  generalize hS : r ++ List.replicate (flen - 1) (0 : Rat) = sT at hs
+  have hrow : PySep.row refs j = .ok r := by simp [PySep.row, hj]
+  have h1 : pT.length = sT.length := by omega
+  have h2 : (List.zipWith (· - ·) pA sT).length = (List.zipWith (· - ·) pT sT).length := by simp; omega
+  have h2' : pA.length = sT.length := by omega
+  have h3 : (PySep.vneg sT).length = (List.zipWith (· - ·) pT sT).length := by simp [PySep.vneg]; omega
+  have h4 : (List.zipWith (· - ·) (PySep.vneg sT) (List.zipWith (· - ·) pT sT)).length
+      = (List.zipWith (· - ·) (List.zipWith (· - ·) pA sT) (List.zipWith (· - ·) pT sT)).length := by
+    simp [PySep.vneg]; omega
+  have h5 : est.length ≤ (List.zipWith (· - ·) (List.zipWith (· - ·) (PySep.vneg sT) (List.zipWith (· - ·) pT sT))
+      (List.zipWith (· - ·) (List.zipWith (· - ·) pA sT) (List.zipWith (· - ·) pT sT))).length := by
+    simp [PySep.vneg]; omega
+  simp only [Gen.separation._bss_decomp_mtifilt, hrow, zeros_ok hf, ok_bind, hS, hT, hA, vsub_ok h1, vsub_ok h2',
+    vsub_ok h2, vsub_ok h3, vsub_ok h4, PyM.len, addPrefix_ok _ _ h5]
+  have hlen : (List.zipWith (· - ·) (List.zipWith (· - ·) (PySep.vneg sT) (List.zipWith (· - ·) pT sT))
+      (List.zipWith (· - ·) (List.zipWith (· - ·) pA sT) (List.zipWith (· - ·) pT sT))).length = sT.length := by
+    simp [PySep.vneg]; omega
+  rw [hlen]
+  rfl
+
+/-- HEADLINE (exact decomposition identity, on the translated definition): whatever `_project` returns (of the right
+    length), the four components `_bss_decomp_mtifilt` returns sum, sample by sample, to the zero-padded estimate. -/
+theorem gen_decomp_components_sum (refs : List (List Rat)) (est r pT pA : List Rat) (j flen : Nat)
+    (proj : List (List Rat) → List Rat → Nat → Py (List Rat))
+    (hj : refs[j]? = some r) (hf : 1 ≤ flen)
+    (hT : proj [r] est flen = .ok pT) (hA : proj refs est flen = .ok pA)
+    (hlT : pT.length = r.length + (flen - 1)) (hlA : pA.length = r.length + (flen - 1))
+    (hle : est.length ≤ r.length + (flen - 1)) :
+    ∃ sTrue eSpat eInterf eArtif, Gen.separation._bss_decomp_mtifilt refs est j flen proj
+        = .ok (sTrue, eSpat, eInterf, eArtif) ∧
+      sTrue = r ++ List.replicate (flen - 1) 0 ∧
+      ((⟨sTrue⟩ + ⟨eSpat⟩ + ⟨eInterf⟩ + ⟨eArtif⟩ : Sig)).xs = padTo (r.length + (flen - 1)) est := by
+  refine ⟨_, _, _, _, decomp_mtifilt_eq_model refs est r pT pA j flen proj hj hf hT hA hlT hlA hle, rfl, ?_⟩
+  have hs : (r ++ List.replicate (flen - 1) (0 : Rat)).length = r.length + (flen - 1) := by simp
+  have := decomp_sums_exec (r ++ List.replicate (flen - 1) 0) pT pA est (by omega) (by omega)
+  rw [hs] at this
+  rw [this]
+  apply List.take_of_length_le
+  simp [padTo]; omega
+
+/-- the exceptions of the arithmetic: a target index out of range is an `IndexError` … -/
+theorem decomp_mtifilt_index_error (refs : List (List Rat)) (est : List Rat) (j flen : Nat)
+    (proj : List (List Rat) → List Rat → Nat → Py (List Rat)) (hj : refs.length ≤ j) :
+    Gen.separation._bss_decomp_mtifilt refs est j flen proj = .error .indexError := by
+  have : refs[j]? = none := by simp [hj]
+  simp [Gen.separation._bss_decomp_mtifilt, PySep.row, this, error_bind]
+
+/-- … and `flen = 0` is the `ValueError` of `np.zeros(-1)`. -/
+theorem decomp_mtifilt_flen_zero (refs : List (List Rat)) (est : List Rat) (j : Nat)
+    (proj : List (List Rat) → List Rat → Nat → Py (List Rat)) (hj : j < refs.length) :
+    Gen.separation._bss_decomp_mtifilt refs est j 0 proj = .error .valueError := by
+  have : refs[j]? = some refs[j] := by simp [hj]
+  simp [Gen.separation._bss_decomp_mtifilt, PySep.row, this, PySep.zeros, ok_bind]
+  rfl
+
 end Mir.C19.Gen
